@@ -218,3 +218,16 @@ def judge(case, im, mo):
                     fail.append('composition: keep %r (keeps %d) then %r gives %d fits, keep %r alone gives %d' % (s1, k1, s2, got, s2, k2))
     tags = ['len=%d' % min(n, 6), 'kind=' + case['kind']]
     return dict(disagree=disagree[:5], fail=fail[:5], nontrivial=nontrivial, evals=evals, tags=tags)
+
+
+def shrink(case):
+    import copy
+    for i in range(len(case['sels'])):
+        if len(case['sels']) > 1:
+            c = copy.deepcopy(case)
+            del c['sels'][i]
+            yield c
+    for i in range(len(case['chi'])):
+        c = copy.deepcopy(case)
+        del c['chi'][i]
+        yield c
